@@ -971,7 +971,9 @@ class C17:
                 g.add("whole", C17.build(pos, w, tree, ov))
                 groups.append(g)
                 k += 1
-        wide = [b"0" * z + d for z in (14, 15, 16, 17, 19, 20, 21, 22, 30) for d in (b"5", b"+5", b"a", b"+a", b"x")] + \
+        from . import srcdict
+        widths = sorted(set((14, 15, 16, 17, 19, 20, 21, 22, 30)) | set(v + d for v in srcdict.load()["ints"] if 4 <= v <= 80 for d in (-2, -1, 0, 1)))
+        wide = [b"0" * z + d for z in widths for d in (b"5", b"+5", b"a", b"+a", b"x", b"120", b"288")] + \
                [b"0" * z + b"+" + b"0" * (15 - t) + b"a" * t for z in (1, 2, 5) for t in (1, 2)] + [b"0+00000000000000a", b"00+0000000000000a", b"0+000000000000005"] + \
                [b"0" * z + b"+" + b"0" * 12 + b"120" for z in (1, 2, 3, 9)] + [b"0" * z + b"120" for z in (13, 14, 15, 20, 29)] + [b"0" * z + b"288" for z in (17, 18, 19, 20, 25)] + \
                [b"0" * z + b"+" + b"0" * 12 + b"288" for z in (1, 4)]
@@ -1207,6 +1209,8 @@ class C07:
     def generate(rng, tier, tree, ov):
         groups = []
         declared = [0, 1, 10, 1000, 4096, 65536, 10 ** 6, 10 ** 7, 2 ** 28 - 1, 2 ** 28 + 1, 2 ** 31, 2 ** 40, 2 ** 47, 2 ** 63 - 1, 2 ** 63, 2 ** 64 - 100, 2 ** 64 - 1]
+        from . import srcdict
+        declared = sorted(set(declared) | set(v + d for v in srcdict.load()["ints"] if v > 100 for d in (-1, 0, 1) if 0 <= v + d < 2 ** 64))
         reps = n_for(tier, 2, 40)
         k = 0
         for _ in range(reps):
